@@ -555,3 +555,11 @@ def m1(ctx):
     obs.append(ctx.ob(star_ok, fi.qualname, fi.where, "'*' is recognised", "a stripped element is compared with '*'",
                       "etag_matches no longer recognises '*' as a list element"))
     return obs
+
+@rule("C03", "P4", floor=40, kind="N",
+      desc="the resource a precondition is evaluated against is the resource the request then writes: the name that is "
+           "looked up and the name that is created / replaced are the same string (same obligations as C16/N1 - a name "
+           "normalised on one side lets `If-None-Match: *` succeed over an existing resource)")
+def p4(ctx):
+    from .c16 import opaque_name_obligations
+    return opaque_name_obligations(ctx)
